@@ -23,6 +23,8 @@ impl Deck {
         let ref mut rng = rand::thread_rng();
         let n = self.0.size();
         let i = rng.gen_range(0..n as u8);
+        #[cfg(robopoker_verif)]
+        let i = crate::verif::draw_index(n as u8).unwrap_or(i);
         let mut ones = 0u8;
         let mut deck = u64::from(self.0);
         let mut card = u64::from(self.0).trailing_zeros() as u8;
